@@ -214,15 +214,16 @@ class Spec:
 
 def run(ctx):
     thorough = ctx.tier == "thorough"
-    depth = 4 if thorough else 3
+    depth = 5 if thorough else 3
     for store in ("Memory", "SimpleMemory"):
         for initial in ("none", "core"):
             if not thorough and (store, initial) == ("SimpleMemory", "core"):
                 continue
             spec = Spec(store, initial)
-            explore.bfs(spec, ctx, max_depth=depth if (store == "Memory" and initial == "none") else min(depth, 3), batch=8)
+            explore.bfs(spec, ctx, max_depth=depth if (store == "Memory" and initial == "none") else min(depth, 4 if thorough else 3), batch=8,
+                        time_cap=(600 if thorough else None))
     spec = Spec("Memory", "none", bind_only=True)
-    explore.bfs(spec, ctx, max_depth=5 if thorough else 4, batch=16)
+    explore.bfs(spec, ctx, max_depth=6 if thorough else 4, batch=16, time_cap=(600 if thorough else None))
     ctx.cov["exhaustive"] = True
     ctx.cov["rule"] = ("BFS over histories of bind (4 prefixes x 4 nested/overlapping namespaces x override x replace), 6 compaction calls x 5 IRIs, "
                        "Turtle parse (2 docs) / serialize, reset(); key = manager cache + tries + both store maps; depth %d (full alphabet), "
